@@ -115,7 +115,8 @@ def value_src(v: Any) -> str:
     if isinstance(v, VEnum):
         return f"{v.enum}.{v.member}"
     if isinstance(v, VObj):
-        return f"{v.cls}(" + ", ".join(f"{k}={value_src(x)}" for k, x in v.fields.items() if k not in v.noinit) + ")"
+        args = v.ctor if v.ctor is not None else v.fields
+        return f"{v.cls}(" + ", ".join(f"{k}={value_src(x)}" for k, x in args.items() if k not in v.noinit) + ")"
     if isinstance(v, list):
         return "[" + ", ".join(map(value_src, v)) + "]"
     if isinstance(v, tuple):
@@ -303,6 +304,15 @@ def object_shapes(nm: Namer) -> Dict[str, Callable[[T, Ctx], Optional[T]]]:
         n = nm("O")
         return Obj("dataclass", n, (F("a", x), F("next", Opt(Ref(n)), default="None", has_default=True, default_value=None)))
 
+    def rec_cons(x, c):
+        # a constraint attached to the back-reference itself (field metadata)
+        n = nm("O")
+        return Obj(
+            "dataclass",
+            n,
+            (F("a", x), F("next", Opt(Ref(n)), default="None", has_default=True, default_value=None, cons=(("max_props", 1),))),
+        )
+
     def rec_list(x, c):
         n = nm("O")
         return Obj("dataclass", n, (F("a", x), F("kids", Coll("list", Ref(n)), factory="list", default_value=[])))
@@ -344,6 +354,23 @@ def object_shapes(nm: Namer) -> Dict[str, Callable[[T, Ctx], Optional[T]]]:
     def ser_if(x, c):
         f = dfield("b", x, c, ser_default=True)
         return f and Obj("dataclass", nm("O"), (F("a", x, ser_if="lambda v: not v"), f))
+
+    def inherit_fields(x, c):
+        base = Obj("dataclass", nm("B"), (F("a", x),))
+        fb = dfield("b", INT, c)
+        return Obj("dataclass", nm("O"), (fb,), bases=(base.name,), base_specs=(base,))
+
+    def inherit_post_init(x, c):
+        # the derived class does not define __post_init__ itself: it inherits the one of its base
+        base = Obj(
+            "dataclass",
+            nm("B"),
+            (F("tag", INT, default="1", has_default=True, default_value=1),),
+            post_init="    def __post_init__(self):\n        self.tag = self.tag + 100",
+            post_effects=(("tag", lambda fs: fs["tag"] + 100),),
+        )
+        fa = dfield("a", x, c)
+        return fa and Obj("dataclass", nm("O"), (fa,), bases=(base.name,), base_specs=(base,))
 
     def two_fields(x, c):
         return Obj("dataclass", nm("O"), (F("a", x), F("b", x)))
